@@ -23,7 +23,9 @@ type Config struct {
 	MaxSteps   int
 	MaxDepth   int
 	AssertMode string // now | batch
-	CrossCheck string // each | off
+	CrossCheck string // each | sample | off
+	AuditEvery int    // audit every n-th rewriting-decided infeasibility / folded assertion with cvc5 (0 = never)
+	NoFast     bool   // disable verified-model feasibility shortcuts
 	Concrete   bool // self-test mode: all nondets concrete, no solver
 	Verbose    bool
 	Only       string // substring filter on harness names
@@ -47,6 +49,8 @@ type HarnessStats struct {
 	Single      int
 	Decisions   int
 	Steps       int64
+	Rewrites, Audits, ByModel, Folded int
+	AuditFail   []string
 	Transitions int
 	SymPaths    int
 	Unsupported map[string]int
@@ -66,6 +70,7 @@ type HarnessStats struct {
 type workItem struct {
 	h      *Harness
 	prefix []int32
+	model  assignment
 }
 
 type Shared struct {
@@ -189,13 +194,14 @@ func (sh *Shared) worker(ex *Exec) {
 		sh.active++
 		sh.mu.Unlock()
 
+		ex.prefixModel = it.model
 		reason := ex.runPath(it.h, it.prefix)
 
 		sh.mu.Lock()
 		sh.active--
 		st.active--
 		for _, p := range ex.newWork {
-			sh.work = append(sh.work, workItem{h: it.h, prefix: p})
+			sh.work = append(sh.work, workItem{h: it.h, prefix: p.prefix, model: p.model})
 		}
 		st.Pending += len(ex.newWork)
 		sh.merge(st, ex, reason, len(it.prefix))
@@ -246,6 +252,11 @@ func (sh *Shared) merge(st *HarnessStats, ex *Exec, reason string, prefixLen int
 	st.Single += r.single
 	st.Decisions += r.decisions
 	st.Steps += int64(ex.steps)
+	st.Rewrites += r.rewrites
+	st.Audits += r.audits
+	st.ByModel += r.byModel
+	st.Folded += r.folded
+	st.AuditFail = append(st.AuditFail, r.auditFail...)
 	st.Transitions += len(ex.trace) - prefixLen
 	if prefixLen > 0 {
 		st.Transitions++
@@ -274,6 +285,10 @@ func (ex *Exec) runPath(h *Harness, prefix []int32) (reason string) {
 	ex.curH = h
 	ex.pc = ex.pc[:0]
 	ex.known = map[*Term]bool{}
+	ex.rep = map[*Term]*Term{}
+	ex.substMemo = map[*Term]*Term{}
+	ex.dirty = false
+	ex.model = nil
 	ex.syncedC, ex.syncedZ = false, false
 	ex.prefix = prefix
 	ex.pos = 0
